@@ -1,11 +1,12 @@
-(** C04 — every streaming call returns: no deadlock, lost wake-up or panic.
+(** C04 — every streaming call returns: no deadlock, lost wake-up, livelock or panic.
     Proved: no panic site and no fuel exhaustion is reachable; a pending call without an outstanding
-    wake-up always has a user future in flight (whose completion wakes it); a call that has
-    returned has no user future in flight.  Not proved: a bound on the number of self-wake-ups of
-    one settle (`settle_terminates`) – the executor loop of the harness, not library code. *)
+    wake-up always has a user future in flight (whose completion wakes it); re-polling while woken
+    always quiesces (at most 2n+3 polls); a call that has returned has no user future in flight;
+    and from every reachable state every scheduler that keeps completing in-flight user futures
+    makes the call return after at most (number of functions not yet ended) completions. *)
 From FG Require Import Dag Builder Sched DagFacts EdgeFacts RankFacts BuilderFacts TopoFacts AugFacts BuildFacts
      SchedInv SafetyFacts CfgFacts StreamInv SI_Queuer SI_Step SI_Stream SafetyInv StreamFacts.
-From FG Require Import Regress SchedInv2 SchedInv3 SI2_Step SI3_Run LiveRun OutcomeFacts.
+From FG Require Import Regress SchedInv2 SchedInv3 SI2_Step SI3_Run LiveRun OutcomeFacts SettleFacts DriveFacts.
 
 Theorem C04_no_panic : forall ops G p q rev a mt ctl lim st incl imm er evs,
   build (builder_run ops) = BOk G p q ->
@@ -69,6 +70,37 @@ Proof.
   apply (ret_started_ended _ _ o H1 H2 Hres).
 Qed.
 Print Assumptions C04_returns_complete.
+
+(** No livelock: polling while the task's waker flag is set always comes to rest within the fuel of
+    [ESettle] (2n+6 polls; at most 2n+3 are ever needed), and then the call has returned or is
+    waiting for the completion of a user future it started (an [ECmp] event is enabled). *)
+Theorem C04_settle_quiesces : forall ops G p q rev a mt ctl lim st incl imm evs,
+  build (builder_run ops) = BOk G p q ->
+  let s := run (mk_cfg G rev a mt ctl lim st incl imm true) (evs ++ [ESettle]) in
+  (woken s = false \/ result s <> None) /\
+  (result s <> None \/ exists i, enabled s i).
+Proof.
+  intros ops G p q rev a mt ctl lim st incl imm evs Hb s.
+  destruct (run_all_invs ops G p q rev a mt ctl lim st incl imm evs Hb) as (Hc & _).
+  split; [exact (settle_quiesces _ evs Hc eq_refl)|].
+  destruct (settled_waits_for_member _ evs Hc eq_refl) as [H|(m & i & _ & _ & _ & Hw & Hl)]; [left; exact H|].
+  right. exists i. split; assumption.
+Qed.
+Print Assumptions C04_settle_quiesces.
+
+(** The call returns: from the state after ANY history, ANY scheduler [pick] that completes some
+    in-flight user future whenever there is one (with any outcome) and lets the executor poll while
+    woken, drives the call to its result within [c_n] completions. *)
+Theorem C04_eventually_returns : forall ops G p q rev a mt ctl lim st incl imm evs pick,
+  build (builder_run ops) = BOk G p q -> fair_pick pick ->
+  let cf := mk_cfg G rev a mt ctl lim st incl imm true in
+  result (drive pick (c_n cf - length (ends (trace (run cf evs)))) cf (run cf evs)) <> None.
+Proof.
+  intros ops G p q rev a mt ctl lim st incl imm evs pick Hb Hp cf.
+  destruct (run_all_invs ops G p q rev a mt ctl lim st incl imm evs Hb) as (Hc & _).
+  exact (eventually_returns_sharp cf evs pick Hc eq_refl Hp).
+Qed.
+Print Assumptions C04_eventually_returns.
 
 (** Non-vacuity: a pending call with woken = false and a function in flight. *)
 Example C04_example :
